@@ -217,9 +217,9 @@ func (ts Timestamp) MarshalCBORStream(w io.Writer, o EncoderOptions, flattened i
 	if time.Time(ts).IsZero() {
 		return enc.Encode(nil)
 	}
-	return enc.Encode(Tag[int]{
+	return enc.Encode(Tag[int64]{
 		Num: 1,
-		Val: time.Time(ts).UTC().Second(),
+		Val: time.Time(ts).Unix(),
 	})
 }
 
